@@ -265,9 +265,19 @@ func (d *DepAnalysis) callEffects(ci ssa.CallInstruction) bool {
 		}
 		return changed
 	}
-	// objects passed absorb the other arguments
+	// objects passed absorb the other arguments. For callees outside the module (standard library,
+	// back-ends) and interface methods only the receiver / first argument is an output: letting every
+	// argument absorb every other one makes unrelated values "depend" on each other through a shared
+	// local buffer (key and nonce cut from one slice), which is noise that any refactoring can remove.
+	external := c.IsInvoke()
+	if f := c.StaticCallee(); f != nil && !core.InModule(f) {
+		external = true
+	}
 	for i, a := range args {
 		if !refLike(a.Type()) {
+			continue
+		}
+		if external && i != 0 {
 			continue
 		}
 		if _, isConst := a.(*ssa.Const); isConst {
@@ -343,6 +353,15 @@ func (s *Summarizer) Summary(f *ssa.Function) *FnSummary {
 					}
 				}
 			}
+			// a verdict (error / bool result) is control-dependent on whatever the function tests:
+			// every parameter that reaches a branch condition counts for the result
+			if ifi, ok := in.(*ssa.If); ok && hasVerdict(f) {
+				for k := range d.get(ifi.Cond) {
+					if i := rootParam(k); i >= 0 {
+						sum.ResultDeps[i] = true
+					}
+				}
+			}
 		}
 	}
 	// objects reachable from parameter i: the parameter itself and its first-level fields
@@ -373,4 +392,15 @@ func (s *Summarizer) Summary(f *ssa.Function) *FnSummary {
 	// a named-result / returned parameter object also carries what it absorbed
 	s.memo[f] = sum
 	return sum
+}
+
+func hasVerdict(f *ssa.Function) bool {
+	res := f.Signature.Results()
+	for i := 0; i < res.Len(); i++ {
+		t := res.At(i).Type()
+		if isErrorType(t) || isBool(t) {
+			return true
+		}
+	}
+	return false
 }
